@@ -529,11 +529,27 @@ def reserve_shape(ctx, RM, o):
     else:
         o.witness('filter')
     o.count()
-    okl = len(loops) == 1 and ast.unparse(loops[0].iter) in (f'{tested}.items()',)
-    if len(loops) == 1 and ast.unparse(loops[0].iter) == f'{pn}.items()':
-        # iterating the raw request is fine only if non-positive entries are skipped before the update
-        sk = [s for s in loops[0].body if isinstance(s, ast.If)]
-        okl = False
+    # the loop(s) that update the pools, wherever they live (helpers are inlined in the supergraph); the iterated mapping is resolved
+    # through the chain of frames to the expression of reserve_resources itself
+    def _writes(x):
+        return (isinstance(x, ast.Subscript) and is_self_attr(x.value, '_resources') and isinstance(x.ctx, ast.Store))
+    iters = []
+    for n_ in g.nodes.values():
+        if n_.kind == 'for' and any(_writes(x) for x in ast.walk(n_.ast)):
+            it = n_.ast.iter
+            txt = ast.unparse(it)
+            if isinstance(it, ast.Call) and isinstance(it.func, ast.Attribute) and it.func.attr == 'items' and isinstance(it.func.value, ast.Name):
+                env_, nm_ = FrameEnv(n_.frame), it.func.value
+                for _ in range(6):
+                    if n_.frame is g.top and env_.frame is g.top:
+                        break
+                    r_ = env_.resolve(nm_.id) if env_.frame is not None and nm_.id in env_.frame.argmap else None
+                    if r_ is None or not isinstance(r_[0], ast.Name):
+                        break
+                    nm_, env_ = r_[0], r_[1]
+                txt = f'{nm_.id}.items()'
+            iters.append(txt)
+    okl = len(iters) == 1 and iters[0] == f'{tested}.items()'
     if not okl:
         o.fail(P, 'ResourceManager.reserve_resources', loops[0].iter if loops else 'for resource_name, amount in filtered_request.items()',
                'the pools must be updated for exactly the entries that were tested', file=RM.mod.path, line=fn.lineno)
